@@ -30,11 +30,26 @@
 // clear(v), delete(v, k), and a method call on a tracked sync.Once (v.Do).  Everything else is a read.
 //
 // Also emitted:
+//
 //   - lock_extents: for every function and tracked lock, the maximum number of separate critical
 //     sections of that lock along one path through the function (the model gives each accessor
 //     exactly one atomic section per lock);
+//
 //   - font_readers: every function other than doLoadUserFonts that reads userFontMetrics, and whether,
 //     before taking the lock, it executes `if err := LoadUserFonts(); err != nil { return ... }`.
+//
+//   - pkg_vars: EVERY package-level `var` of every package under pkg/ as
+//     (name, immutable-type?, written?, method-called?):
+//     immutable-type = declared type is a basic type (string, bool, integer, float, byte, rune), or the
+//     initialiser is a basic literal, errors.New(..), fmt.Errorf(..), regexp.MustCompile(..), a
+//     *regexp.Regexp, or (name starts with Err/err) an alias of another error variable;
+//     written = some function other than a receiver-less init() assigns / op-assigns / ++ / -- it, one
+//     of its elements or fields, passes it as first argument to clear / delete / copy, or takes its
+//     address (in its own package: the bare identifier, not shadowed; elsewhere: <pkgname>.<Name>);
+//     method-called = a method is called on it (or on one of its elements / fields), the way a shared
+//     hash.Hash, *bytes.Buffer, sync.Pool ... is mutated.
+//     The audit lists in coq/C40/Audit.v must cover every non-immutable-typed variable and every
+//     written / method-called one, so that a NEW piece of package-level state breaks the proof.
 //
 // The tool FAILS (exit 1) on anything it does not understand: a tracked variable whose address is
 // taken, shadowed, captured by a go statement or touched in a defer; a lock operation that is not a
@@ -734,6 +749,252 @@ func analysePkg(dir, rel string) {
 	}
 }
 
+// ---------------------------------------------------------------- package-level variable inventory
+
+type pvar struct {
+	pkg, name        string
+	spec             *ast.ValueSpec
+	immutable        bool
+	written, methodc bool
+	file             string
+	line             int
+}
+
+var basicTypes = map[string]bool{"string": true, "bool": true, "int": true, "int8": true, "int16": true, "int32": true, "int64": true,
+	"uint": true, "uint8": true, "uint16": true, "uint32": true, "uint64": true, "float32": true, "float64": true, "byte": true, "rune": true, "uintptr": true}
+
+func selName(e ast.Expr) string {
+	switch x := e.(type) {
+	case *ast.Ident:
+		return x.Name
+	case *ast.SelectorExpr:
+		if id, ok := x.X.(*ast.Ident); ok {
+			return id.Name + "." + x.Sel.Name
+		}
+	}
+	return ""
+}
+
+func immutableDecl(name string, typ ast.Expr, val ast.Expr) bool {
+	if typ != nil {
+		if id, ok := typ.(*ast.Ident); ok && basicTypes[id.Name] {
+			return true
+		}
+		if st, ok := typ.(*ast.StarExpr); ok && selName(st.X) == "regexp.Regexp" {
+			return true
+		}
+		if id, ok := typ.(*ast.Ident); ok && id.Name == "error" && val != nil {
+			// typed error with an initialiser that is a constructor
+			if c, ok := val.(*ast.CallExpr); ok {
+				switch selName(c.Fun) {
+				case "errors.New", "fmt.Errorf":
+					return true
+				}
+			}
+		}
+		return false
+	}
+	switch v := val.(type) {
+	case *ast.BasicLit:
+		return true
+	case *ast.CallExpr:
+		switch selName(v.Fun) {
+		case "errors.New", "fmt.Errorf", "regexp.MustCompile":
+			return true
+		}
+	case *ast.Ident, *ast.SelectorExpr:
+		if strings.HasPrefix(name, "Err") || strings.HasPrefix(name, "err") {
+			n := selName(v)
+			if i := strings.LastIndex(n, "."); i >= 0 {
+				n = n[i+1:]
+			}
+			return strings.HasPrefix(n, "Err") || strings.HasPrefix(n, "err")
+		}
+		if id, ok := v.(*ast.Ident); ok && (id.Name == "true" || id.Name == "false") {
+			return true
+		}
+	}
+	return false
+}
+
+// root strips index / field / paren / star / slice expressions: the variable an lvalue or receiver lives in.
+func root(e ast.Expr) ast.Expr {
+	for {
+		switch x := e.(type) {
+		case *ast.IndexExpr:
+			e = x.X
+		case *ast.SliceExpr:
+			e = x.X
+		case *ast.ParenExpr:
+			e = x.X
+		case *ast.StarExpr:
+			e = x.X
+		case *ast.SelectorExpr:
+			if id, ok := x.X.(*ast.Ident); ok && id.Obj == nil {
+				// could be <pkgname>.<Var>: keep the selector, the caller resolves it
+				return x
+			}
+			e = x.X
+		default:
+			return e
+		}
+	}
+}
+
+type inventory struct {
+	vars   []*pvar
+	byPkg  map[string]map[string]*pvar // package name -> var name -> var
+	bySpec map[*ast.ValueSpec][]*pvar
+}
+
+func (inv *inventory) resolve(curPkg string, e ast.Expr) *pvar {
+	switch x := root(e).(type) {
+	case *ast.Ident:
+		v := inv.byPkg[curPkg][x.Name]
+		if v == nil {
+			return nil
+		}
+		if x.Obj != nil {
+			if sp, ok := x.Obj.Decl.(*ast.ValueSpec); !ok || sp != v.spec {
+				return nil // a local of the same name
+			}
+		}
+		return v
+	case *ast.SelectorExpr:
+		id := x.X.(*ast.Ident)
+		if id.Name == curPkg {
+			return nil
+		}
+		if m := inv.byPkg[id.Name]; m != nil {
+			if v := m[x.Sel.Name]; v != nil && ast.IsExported(v.name) {
+				return v
+			}
+		}
+		// field of a package variable: <var>.<field>
+		if v := inv.byPkg[curPkg][id.Name]; v != nil && id.Obj == nil {
+			return v
+		}
+	}
+	return nil
+}
+
+func buildInventory(repo string, dirs []string) *inventory {
+	inv := &inventory{byPkg: map[string]map[string]*pvar{}}
+	type pf struct {
+		pkg string
+		f   *ast.File
+	}
+	var files []pf
+	for _, d := range dirs {
+		ents, _ := os.ReadDir(d)
+		for _, e := range ents {
+			n := e.Name()
+			if e.IsDir() || !strings.HasSuffix(n, ".go") || strings.HasSuffix(n, "_test.go") || strings.HasPrefix(n, "verif_export_") {
+				continue
+			}
+			f, err := parser.ParseFile(fset, filepath.Join(d, n), nil, 0)
+			if err != nil {
+				die("parse %s: %v", filepath.Join(d, n), err)
+			}
+			pkg := f.Name.Name
+			files = append(files, pf{pkg, f})
+			for _, dc := range f.Decls {
+				gd, ok := dc.(*ast.GenDecl)
+				if !ok || gd.Tok != token.VAR {
+					continue
+				}
+				for _, sp := range gd.Specs {
+					vs := sp.(*ast.ValueSpec)
+					for i, nm := range vs.Names {
+						if nm.Name == "_" {
+							continue
+						}
+						var val ast.Expr
+						if i < len(vs.Values) {
+							val = vs.Values[i]
+						}
+						p := fset.Position(nm.Pos())
+						rel, _ := filepath.Rel(repo, p.Filename)
+						v := &pvar{pkg: pkg, name: nm.Name, spec: vs, immutable: immutableDecl(nm.Name, vs.Type, val), file: rel, line: p.Line}
+						if inv.byPkg[pkg] == nil {
+							inv.byPkg[pkg] = map[string]*pvar{}
+						}
+						if inv.byPkg[pkg][nm.Name] != nil {
+							die("%s: two packages named %s declare a variable %s: the inventory keys on package name", pos(nm), pkg, nm.Name)
+						}
+						inv.byPkg[pkg][nm.Name] = v
+						inv.vars = append(inv.vars, v)
+					}
+				}
+			}
+		}
+	}
+	for _, x := range files {
+		for _, dc := range x.f.Decls {
+			fd, ok := dc.(*ast.FuncDecl)
+			if !ok || fd.Body == nil || (fd.Recv == nil && fd.Name.Name == "init") {
+				continue
+			}
+			mark := func(e ast.Expr, method bool) {
+				if v := inv.resolve(x.pkg, e); v != nil {
+					if method {
+						v.methodc = true
+					} else {
+						v.written = true
+					}
+				}
+			}
+			ast.Inspect(fd.Body, func(n ast.Node) bool {
+				switch s := n.(type) {
+				case *ast.AssignStmt:
+					if s.Tok != token.DEFINE {
+						for _, l := range s.Lhs {
+							mark(l, false)
+						}
+					}
+				case *ast.IncDecStmt:
+					mark(s.X, false)
+				case *ast.RangeStmt:
+					if s.Tok == token.ASSIGN {
+						if s.Key != nil {
+							mark(s.Key, false)
+						}
+						if s.Value != nil {
+							mark(s.Value, false)
+						}
+					}
+				case *ast.UnaryExpr:
+					if s.Op == token.AND {
+						if _, lit := s.X.(*ast.CompositeLit); !lit {
+							mark(s.X, false)
+						}
+					}
+				case *ast.CallExpr:
+					if id, ok := s.Fun.(*ast.Ident); ok && (id.Name == "clear" || id.Name == "delete" || id.Name == "copy") && len(s.Args) > 0 {
+						mark(s.Args[0], false)
+					}
+					if se, ok := s.Fun.(*ast.SelectorExpr); ok {
+						// receiver of a method call; <pkg>.<Func>(...) resolves to nothing
+						if v := inv.resolve(x.pkg, se.X); v != nil {
+							// se.X itself must denote the variable (or a part of it), not <pkg>.<Var> being the whole of se
+							v.methodc = true
+						}
+					}
+				}
+				return true
+			})
+		}
+	}
+	sort.SliceStable(inv.vars, func(i, j int) bool {
+		a, b := inv.vars[i], inv.vars[j]
+		if a.pkg != b.pkg {
+			return a.pkg < b.pkg
+		}
+		return a.name < b.name
+	})
+	return inv
+}
+
 func main() {
 	repo := flag.String("repo", "/repo", "pdfcpu source tree")
 	out := flag.String("out", "", "output .v file")
@@ -849,6 +1110,17 @@ func main() {
 			sep = ""
 		}
 		w("  (%d, %v)%s   (* %s *)\n", fidx[r.fn], r.loadFirst, sep, r.fn)
+	}
+	w("].\n\n")
+	inv := buildInventory(*repo, dirs)
+	w("(* every package-level variable under pkg/: (name, (immutable type, (written outside init, method called on it))) *)\n")
+	w("Definition pkg_vars : list (string * (bool * (bool * bool))) := [\n")
+	for i, v := range inv.vars {
+		sep := ";"
+		if i == len(inv.vars)-1 {
+			sep = ""
+		}
+		w("  (%q%%string, (%v, (%v, %v)))%s   (* %s:%d *)\n", v.pkg+"."+v.name, v.immutable, v.written, v.methodc, sep, v.file, v.line)
 	}
 	w("].\n")
 	if err := os.WriteFile(*out, []byte(b.String()), 0o644); err != nil {
